@@ -18,7 +18,7 @@ while args and args[0].startswith("-"):
 names = sorted(d for d in os.listdir(V + "/seeded") if os.path.isdir(V + "/seeded/" + d))
 if args:
     names = [n for n in names if n in args]
-extra = {"C15-r12": ["C17"], "C17-r11": ["C04"], "C16-r11": ["C15"], "C04-2": ["C02"], "C04-r3": ["C02"], "C16-r9": ["C15"], "C04-r10": ["C02"], "C16-r10": ["C15"]}
+extra = {"C12-r12": ["C04"], "C15-r12": ["C17"], "C17-r11": ["C04"], "C16-r11": ["C15"], "C04-2": ["C02"], "C04-r3": ["C02"], "C16-r9": ["C15"], "C04-r10": ["C02"], "C16-r10": ["C15"]}
 lock = threading.Lock()
 results = json.load(open(V + "/seeded/RESULTS.json")) if os.path.exists(V + "/seeded/RESULTS.json") else {}
 
